@@ -58,9 +58,7 @@ func (s *Service) onWebSocketRequest(w http.ResponseWriter, r *http.Request) {
 // streams 请求处理(websocket connect,flv,mu38,ts)
 func (s *Service) onStreamsRequest(w http.ResponseWriter, r *http.Request) {
 	// 检测 websocket 请求
-	if r.Method == "GET" &&
-		strings.ToLower(r.Header.Get("Connection")) == "upgrade" &&
-		strings.ToLower(r.Header.Get("Upgrade")) == "websocket" {
+	if isWebSocketUpgrade(r) {
 		s.onWebSocketRequest(w, r)
 		return
 	}
@@ -108,8 +106,9 @@ func permissionInterceptor(w http.ResponseWriter, r *http.Request) bool {
 	u := auth.Get(userName)
 
 	streamPath, ext := extractStreamPathAndExt(r.URL.Path)
-	if ext == ".ts" {
+	if ext == ".ts" && !isWebSocketUpgrade(r) {
 		// hls 分段的请求路径是 <流路径>/<序号>.ts，权限针对的是流路径
+		// (websocket 升级请求不是 hls 分段请求：连接的流路径就是去掉后缀的整个请求路径)
 		if i := strings.LastIndex(streamPath, "/"); i >= 0 {
 			streamPath = streamPath[:i]
 		}
@@ -121,6 +120,13 @@ func permissionInterceptor(w http.ResponseWriter, r *http.Request) bool {
 	}
 
 	return true
+}
+
+// 是否是 websocket 升级请求
+func isWebSocketUpgrade(r *http.Request) bool {
+	return r.Method == "GET" &&
+		strings.ToLower(r.Header.Get("Connection")) == "upgrade" &&
+		strings.ToLower(r.Header.Get("Upgrade")) == "websocket"
 }
 
 // 提取请求路径中的流path和格式后缀
